@@ -208,7 +208,8 @@ def dataset_specs(draw, min_n=2, dtypes=("f64", "f64", "f32", "i16", "i32")):
     mult = st.one_of(st.integers(-50, 50).map(float), st.floats(-50, 50, allow_nan=False), st.sampled_from([-50.0, -3.0, 0.0, 50.0]),
                      st.sampled_from([400.0, -700.0, 950.0, -950.0]))
     return {
-        "N": draw(st.sampled_from([n for n in [1, 2, 2, 3, 4, 5, 6, 7, 8, 9, 10, 12] if n >= min_n])),
+        # mostly a handful of vectors; one data set in nine is corpus-sized (block-wise reductions only differ there)
+        "N": draw(st.sampled_from([n for n in [1, 2, 2, 3, 4, 5, 6, 7, 8, 9, 10, 12] * 2 + [300, 2049, 2500, 5000] if n >= min_n])),
         "m": [draw(mult) for _ in range(F)],
         "s": [draw(st.sampled_from([1.0, 1.0, 2.0, 5.0, 20.0, 3.7])) for _ in range(F)],
         "dtype": draw(st.sampled_from(list(dtypes))),
@@ -218,8 +219,8 @@ def dataset_specs(draw, min_n=2, dtypes=("f64", "f64", "f32", "i16", "i32")):
 
 @st.composite
 def histories(draw, N):
-    cuts = draw(st.lists(st.integers(1, max(1, N - 1)), unique=True, max_size=max(0, N - 1))) if N > 1 else []
-    if N > 1 and draw(st.integers(0, 5)) == 0:
+    cuts = draw(st.lists(st.integers(1, max(1, N - 1)), unique=True, max_size=min(12, max(0, N - 1)))) if N > 1 else []
+    if 1 < N <= 12 and draw(st.integers(0, 5)) == 0:
         cuts = list(range(1, N))  # one vector per call, like the shipped test
     n_calls = len(chunk_sizes(N, cuts))
     return {
@@ -345,7 +346,7 @@ def _vtol(data, mean, var, norm_var):
     mean^2/var of its precision, so a few hundred ulps times that condition number -- far below what a
     single-precision accumulation (1e-7) would produce on well-conditioned data."""
     kappa = 1.0 + (float(np.max(mean * mean / var)) if norm_var else 0.0)
-    return max(1e-11, 256 * data.shape[0] * EPS * kappa)
+    return max(1e-11, min(256 * data.shape[0], 4096) * EPS * kappa)
 
 
 def check_values(case):
@@ -438,7 +439,7 @@ def check_own(case):
             [float(v) for v in m2], worst)
     if norm_var:
         worst = float(np.max(np.abs(v2 - 1)))
-        require(worst <= 1e-9, "result has per-coefficient variance {} (should be 1)", [float(v) for v in v2])
+        require(worst <= max(1e-9, _vtol(data, mean, var, True)), "result has per-coefficient variance {} (should be 1)", [float(v) for v in v2])
     ref = post_ref.standardize_ref(x0, mean, var, axis, norm_var)
     compare("apply without statistics vs (x - own mean)/own std", out, ref, 1e-7 * max(1.0, float(np.max(np.abs(ref)))))
     labs = ["dtype=" + spec["dtype"], "norm_var" if norm_var else "mean_only", "ndim=%d" % x0.ndim, "vectors=%s" % min(data.shape[0], 6)]
